@@ -16,6 +16,9 @@
 From Eino Require Import Base.Util Model.ConcatTable Model.Concat Model.ConcatMsg.
 From Coq Require Import Sorting.Permutation.
 
+Section User.
+Context {U : UserFn}.
+
 (* ---------------------------------------------------------------- Go maps up to representation *)
 
 (* A [CMap] is an association list; the Go value it stands for is the lookup function.
@@ -173,3 +176,5 @@ Definition msg_same (a b : msg) : Prop :=
 
 Definition omsg_same (a b : option msg) : Prop :=
   match a, b with Some x, Some y => msg_same x y | None, None => True | _, _ => False end.
+
+End User.
